@@ -46,6 +46,9 @@ type c01RunParams struct {
 	TeardownFail bool `json:"teardown_fail,omitempty"`
 	// SlowRefresh: the gateway takes 1.5 s to answer the periodic push that falls 5 s into the run, and the run ends meanwhile
 	SlowRefresh bool `json:"slow_refresh,omitempty"`
+	// ParkedTick: the first progress report is held while it collects the statistics (hook progress.collect.mid, second
+	// arrival: successes already read, failures not yet) until well after the run has ended
+	ParkedTick bool `json:"parked_tick,omitempty"`
 }
 
 var c01Outcomes = []metrics.ResultType{metrics.SuccessResult, metrics.FailedResult, metrics.DroppedResult}
@@ -175,6 +178,20 @@ func init() {
 				p.Desc = "mode=users c=2 dur=5600ms failEvery=3 body=sleep push=true slow periodic refresh at 5 s"
 				cse := core.MkCase("C01", "run", 6500, seed, p)
 				cse.TimeoutMS = 90000
+				cs = append(cs, cse)
+			}
+			// a progress report that is still collecting when the run ends: the result at return carries the whole run
+			for i := 0; i < 2; i++ {
+				spec := engine.Spec{Mode: "users", Concurrency: 2 + i, MaxDurationMS: 1500, IgnoreDropped: true}
+				if i == 1 {
+					spec = engine.RateSpec("constant", 3, 5, 20)
+					spec.MaxDurationMS, spec.IgnoreDropped = 1500, true
+				}
+				p := c01RunParams{Spec: spec, FailEvery: 3, Body: "sleep", Reps: 1, ParkedTick: true}
+				p.Desc = fmt.Sprintf("mode=%s c=%d dur=1500ms failEvery=3 body=sleep first progress report held while collecting until after the end", spec.Mode, spec.Concurrency)
+				cse := core.MkCase("C01", "run", 6600+i, seed, p)
+				cse.Solo = true
+				cse.TimeoutMS = 60000
 				cs = append(cs, cse)
 			}
 			// helper goroutines that mark failure while their iteration is ending: whichever way such an
@@ -557,6 +574,27 @@ func c01RunOnce(c *core.Case, o *core.Outcome, p c01RunParams, inst *metrics.Met
 			gw.DelayNth, gw.DelayFor = 2, 1500*time.Millisecond
 		}
 		p.Spec.PushGateway = gw.URL()
+	}
+	if p.ParkedTick {
+		hc := engine.NewHookCtl(c.Seed)
+		pk := hc.ParkNth("progress.collect.mid", 2)
+		hc.Install()
+		defer hc.Uninstall()
+		go func() {
+			select {
+			case <-pk.Arrived:
+				time.Sleep(1200 * time.Millisecond)
+				pk.Release()
+			case <-ctx.Done():
+			}
+		}()
+		defer func() {
+			select {
+			case <-pk.Arrived:
+				o.AddObs("reports_held_across_the_end", 1)
+			default:
+			}
+		}()
 	}
 	r := engine.Execute(ctx, p.Spec, l, c01Scenario(&p, &passed, &failed, c.Rng("salt").Uint64()), nil, inst)
 	if r.NewErr != nil {
